@@ -372,6 +372,26 @@ def r5(ctx):
                 bad = p
         ctx.ob(fi.qual, "resorted-after:%s" % u(c)[:50], bad is None, fi.loc(c), "after %s the worklist is re-sorted with the defining key before it is popped or peeked again" % u(c)[:50] if bad is None else "%s adds a block without re-sorting the worklist by its defining key: overlapping phase sets can both be emitted whole" % u(c)[:50], cfg.describe_path(bad))
     ctx.require(len(grows) >= 1, "no insertion into the worklist found")
+    # a block is split exactly when the next block starts before it ends: the overlap test compares the end of the popped block
+    # with the START of the next one (with its end, staggered sets -- second starts inside the first and ends behind it --
+    # are emitted whole and the lengths add up to more than the covered span)
+    splits = [c for c in ctx.prog.calls_in(fi.node) if isinstance(c.func, ast.Attribute) and c.func.attr == "split"]
+    if len(splits) == 1:
+        ga = util.expanded_guard_atoms(cfg, fi.node, cfg.node_containing(splits[0]), keep=(wl,))
+        cmps = [(t_, p_) for t_, p_ in ga if "rightmost_variant.position" in t_ and (" < " in t_ or " <= " in t_)]
+        with_start = [(t_, p_) for t_, p_ in cmps if "leftmost_variant.position" in t_]
+        okv = None
+        if with_start:
+            t_, p_ = with_start[0]
+            l_, r_ = re.split(r" <=? ", t_, 1)
+            strict = " < " in t_
+            # next.start < cur.end (True)  or  cur.end <= next.start (False)
+            okv = (("leftmost" in l_ and "rightmost" in r_ and strict and p_) or ("rightmost" in l_ and "leftmost" in r_ and not strict and not p_))
+        elif cmps:
+            okv = False
+        ctx.ob(fi.qual, "overlap-test-end-against-next-start", okv, fi.loc(splits[0]), "a block is split when the next block starts before it ends" if okv else ("the split is guarded by %s: the popped block's end is not compared with the next block's start, so staggered phase sets are not separated and block lengths add up to more than the covered span" % [t_ for t_, _ in cmps] if okv is False else "cannot read the overlap test that guards block.split(...)"))
+    else:
+        ctx.ob(fi.qual, "overlap-test-end-against-next-start", None, fi.loc(), "block.split(...) call not found")
     filt = [(s, v) for s, v in util.assignments_to(fi.node, wl) if isinstance(v, ast.ListComp)]
     ok = (None if not filt else (len(filt) == 1 and not filt[0][1].generators[0].ifs == [] and u(filt[0][1].generators[0].iter) == wl))
     ctx.ob(fi.qual, "filter-keeps-order", ok, fi.loc(), "singleton filtering keeps the sorted order (list comprehension over the sorted list)" if ok else "the singleton filter no longer preserves the sorted order")
